@@ -30,6 +30,7 @@ ENTRIES = [
     ("m4.eml", "20-Jan-2020 00:10:00 +0900"),   # local day 20, UTC day 19
     ("m5.eml", "05-Jan-2020 10:00:00 +0000"),
     ("m6.eml", "06-Jan-2020 12:00:00 +0000"),   # no header field at all: the text starts with the empty line
+    ("m7.eml", "10-Feb-2020 08:00:00 +0000"),   # multipart/mixed whose body holds the preamble and the closing delimiter only
 ]
 
 # ---- body sections (index in this list + 1 = section id of the specification)
@@ -257,6 +258,8 @@ def main():
     for m in msgs:
         for s in PARTIAL_SECTIONS:
             b = section(m, SECTIONS[s - 1])
+            if b is None:       # (a multipart without parts has no part 1)
+                continue
             L = len(b)
             for p in [(3, L - 3), (3, L + 10), (L, 5), (L + 7, 5), (L - 1, 1), (L - 1, 2)]:
                 if p[0] >= 0 and p[1] >= 1 and p not in pool:
@@ -274,6 +277,9 @@ def main():
             b = section(m, SECTIONS[s - 1])
             row = []
             for (o, z) in pool:
+                if b is None:
+                    row.append((-1, ""))
+                    continue
                 sl = b[o:o + z] if o <= len(b) else b""
                 row.append((len(sl), fp(sl)))
             parts[s] = row
